@@ -25,6 +25,9 @@ EXPORTERS = {"to_arrow": "pyarrow.array", "to_pandas": "pandas.DataFrame", "to_l
 
 def check(ctx):
     repo = ctx.repo
+    from . import generic
+    generic.finiteness_as_missing(ctx, generic.module_functions(repo, "dataiter.util", "dataiter.list_of_dicts", "dataiter.data_frame", "dataiter.vector"),
+                                  "the same values and the same missing positions come back")
     for r, t in (("TNT-tolist", "cells leave the frame only through Vector.tolist (NA -> None)"),
                  ("SIB-11", "from_arrow / from_pandas agree on the import feature record"),
                  ("SIB-5", "NA value and NA dtype from the same column"),
@@ -233,28 +236,38 @@ def check(ctx):
            clause="same column names and order")
     # ------------------------------------------------------------- GRD-sniff
     n_sniff = 0
+
+    def _const_index(sl):
+        return (isinstance(sl, ast.Constant) and isinstance(sl.value, int)) or (
+            isinstance(sl, ast.UnaryOp) and isinstance(sl.op, ast.USub) and isinstance(sl.operand, ast.Constant)
+            and isinstance(sl.operand.value, int))
     for q in (f"{VEC}._np_array", f"{VEC}.fast", f"{VEC}.__new__", f"{VEC}._std_to_np"):
         fn = repo.fn(q)
-        for node in body_nodes(fn.node):
-            if not isinstance(node, ast.If):
-                continue
-            def _const_index(sl):
-                return (isinstance(sl, ast.Constant) and isinstance(sl.value, int)) or (
-                    isinstance(sl, ast.UnaryOp) and isinstance(sl.op, ast.USub) and isinstance(sl.operand, ast.Constant)
-                    and isinstance(sl.operand.value, int))
-            subs = [n for n in ast.walk(node.test) if isinstance(n, ast.Subscript) and _const_index(n.slice)
+
+        def _fixed(e):
+            return [n for n in ast.walk(e) if isinstance(n, ast.Subscript) and _const_index(n.slice)
                     and isinstance(n.value, ast.Name) and n.value.id in fn.all_params]
-            if not subs:
+        reported = set()
+        for a in [n for n in body_nodes(fn.node) if isinstance(n, ast.Assign) and norm(n.targets[0]) == "dtype"]:
+            # the decision reads a fixed element either in a test it is made under or in the assigned value itself
+            site, subs = None, []
+            cur = fn.module.parent.get(a)
+            while cur is not None and cur is not fn.node:
+                if isinstance(cur, ast.If) and _fixed(cur.test):
+                    site, subs = cur, _fixed(cur.test)
+                cur = fn.module.parent.get(cur)
+            if site is None and _fixed(a.value):
+                site, subs = a, _fixed(a.value)
+            if site is None or id(site) in reported:
                 continue
-            assigns = [n for n in ast.walk(node) if isinstance(n, ast.Assign) and norm(n.targets[0]) == "dtype"]
-            if not assigns:
-                continue
+            reported.add(id(site))
             n_sniff += 1
-            ctx.ob("GRD-sniff", fn, norm(node.test), node, False,
+            ctx.ob("GRD-sniff", fn, norm(site.test) if isinstance(site, ast.If) else norm(site), site, False,
                    f"the dtype is decided from element {norm(subs[0])} alone; callers (from_pandas / from_arrow hand over tolist() "
-                   f"output, Vector.fast any sequence) pass sequences whose missing values (None) can sit at any position, so a string "
-                   f"column whose first element is missing takes the other branch and comes back as object",
-                   chain=[f"decision: {norm(assigns[0])}"], clause="arbitrary missing positions (incl. first position)")
+                   f"output, Vector.fast any sequence, aggregate() the list of per-group results) pass sequences whose missing values "
+                   f"(None) can sit at any position, so a column whose first element is of one kind and a later one missing or of "
+                   f"another kind gets the wrong dtype",
+                   chain=[f"decision: {norm(a)}"], clause="arbitrary missing positions (incl. first position)")
     if n_sniff == 0:
         ctx.ob("GRD-sniff", repo.fn(f"{VEC}._np_array"), "no dtype decision on a fixed element", repo.fn(f"{VEC}._np_array").node, True,
                "dtype decisions depend on no single fixed element")
